@@ -191,7 +191,7 @@ PROPS = {
         "profile": "flags", "n_quick": 5, "n_thorough": 40, "nops": 16, "nlists": 3, "cfgs": SIX + ["mp11:p1", "back:p1", "mp11:p2"],
         "corpus": ["flags_leaving_sub"],
         "monitor": M.mon_flags_inside, "extra_flags": ("-DH_FLAGOBS",),
-        "relevant": M.relevant_by(lambda b: [l for l in b if l.startswith("FLAG") or l.startswith("SNAP")]),
+        "relevant": M.relevant_by(M.proj_C17),
         "rule": "machines with user flags on simple states, submachine states and substates; after every operation "
                 "is_flag_active<F>() and is_flag_active<F, AND>() of the root are compared for every flag",
         "assumptions": CORE_ASSUME,
